@@ -12,8 +12,20 @@ MARKERS = [PGP, PGPMSG, X509, SSH]
 ZERO_TS = -62135596800
 
 
-def rhash(rng, n=40):
-    return rbytes(rng, n, HEXL)
+DEFAULT_HL = [40]
+
+
+def rhash(rng, n=None):
+    return rbytes(rng, DEFAULT_HL[0] if n is None else n, HEXL)
+
+
+def _with_hl(f, rng, bucket, hl):
+    """run a raw generator with object ids of hl hex digits (64 = SHA-256 repository)"""
+    DEFAULT_HL[0] = hl
+    try:
+        return f(rng, bucket)
+    finally:
+        DEFAULT_HL[0] = 40
 
 
 def word(rng, lo=1, hi=8, alpha=b"abcdefghijXYZ01"):
@@ -48,7 +60,7 @@ def ident_line(rng, odd):
     """the text after 'author ' (no LF)"""
     if not odd:
         return name(rng) + b" <" + email(rng) + b"> " + ts_canon(rng) + b" " + (rng.choice(ZONES) if rng.random() < 0.95 else b"-0000")
-    k = rng.randrange(16)
+    k = rng.randrange(19)
     nm, em = name(rng, rng.random() < 0.5), email(rng, rng.random() < 0.4)
     ts = rng.choice(TS_ODD) if rng.random() < 0.5 else ts_canon(rng)
     tz = rng.choice(ZONES_ODD) if rng.random() < 0.6 else rng.choice(ZONES)
@@ -80,6 +92,16 @@ def ident_line(rng, odd):
         return b""
     if k == 13:
         return nm + b" >" + em + b"< " + ts + b" " + tz
+    if k == 16:
+        # nothing git or go-git can read as a date after '>' (no digit at all)
+        return nm + b" <" + em + b">" + rng.choice([b" ", b"  ", b" x", b"\t", b" +", b" -", b" + ", b" abc def", b"x", b" -x +y"])
+    if k == 17:
+        # '>' inside the name, blank names
+        return rng.choice([b"a>b", b"A> B", b">", b"", b" ", b"  ", b"\t", b" \t", b"A\t ", b"A \r"]) + b" <" + email(rng) + b"> " + ts_canon(rng) + b" " + rng.choice(ZONES)
+    if k == 18:
+        # date part at the edges of the canonical shape
+        return name(rng) + b" <" + email(rng) + b"> " + rng.choice([b"0", b"00", b"007", b"9223372036854775807", b"9223372036854775808"]) + b" " + rng.choice(
+            [b"+0000", b"-0000", b"-0001", b"-0100", b"+0059", b"+0060", b"+9959", b"-9959", b"+0100x", b"+01000", b"+0100 7", b"+0100 x"])
     return nm + b" <" + em + b"> " + ts + b" " + tz
 
 
@@ -167,8 +189,10 @@ def assemble(groups, msg, blank=True):
     return b"".join(b"".join(ls) for _, ls in groups) + (b"\n" if blank else b"") + msg
 
 
-def raw_commit(rng, bucket):
+def raw_commit(rng, bucket, hl=40):
     """-> bytes.  buckets: canonical permuted dups sigs oddident oddhdr eofhdr trunc junk"""
+    if hl != 40:
+        return _with_hl(raw_commit, rng, bucket, hl)
     if bucket == "canonical":
         return assemble(commit_headers(rng), message(rng, rng.choice(["plain", "plain", "nolf", "blanktail", "headerlike", "marker"])))
     if bucket == "oddident":
@@ -228,6 +252,34 @@ def raw_commit(rng, bucket):
             g.insert(rng.randrange(1, len(g) + 1), ("encoding", [rng.choice([b"encoding\n", b"encoding \n"])]))
             g.append(("encoding", [b"encoding latin1\n"]))
         return assemble(g, message(rng))
+    if bucket == "extras":
+        # a root commit (git can --amend it, which shows what git takes its extra headers to be) with every extra-header shape:
+        # multi-line values, empty values, keys without a value, stray continuation lines, standard keywords out of place
+        g = [("tree", [b"tree " + rhash(rng) + b"\n"]), ("author", [b"author " + ident_line(rng, False) + b"\n"]),
+             ("committer", [b"committer " + ident_line(rng, False) + b"\n"])]
+        for _ in range(rng.randrange(0, 5)):
+            k = pick_weighted(rng, [(5, "extra"), (3, "oddextra"), (1, "sig"), (1, "enc"), (1, "stray"), (1, "std"), (1, "bare")])
+            if k == "extra":
+                ls = extra_header(rng, False)
+            elif k == "oddextra":
+                ls = extra_header(rng, True)
+            elif k == "sig":
+                ls = multiline_header(rng.choice([b"gpgsig", b"gpgsig-sha256"]), sig_body(rng) + ([b""] if rng.random() < 0.5 else []))
+            elif k == "enc":
+                ls = [rng.choice([b"encoding UTF-8\n", b"encoding\n", b"encoding \n"])]
+            elif k == "stray":
+                ls = [b" stray\n"]
+            elif k == "std":
+                ls = [rng.choice([b"tree x\n", b"parent y\n", b"author Z <z@z> 3 +0000\n", b"committer\n", b"tree\n", b"parent\n"])]
+            else:
+                ls = [word(rng) + b"\n"]
+            g.insert(rng.randrange(1, len(g) + 1), (k, ls))
+        r = rng.random()
+        if r < 0.08:
+            return assemble(g, b"", blank=False)            # ends in the header, LF-terminated
+        if r < 0.16:
+            return assemble(g, b"", blank=False)[:-1]       # ends in the header, unterminated
+        return assemble(g, message(rng, rng.choice(["plain", "plain", "nolf", "empty", "headerlike"])))
     if bucket == "eofhdr":
         # the object ends inside the header block: no blank line, with or without final LF
         g = commit_headers(rng, odd=rng.random() < 0.3)
@@ -252,7 +304,8 @@ def raw_commit(rng, bucket):
     raise ValueError(bucket)
 
 
-COMMIT_BUCKETS = [(5, "canonical"), (3, "sigs"), (2, "permuted"), (2, "dups"), (3, "oddident"), (3, "oddhdr"), (2, "eofhdr"), (1, "trunc"), (1, "junk")]
+COMMIT_BUCKETS = [(5, "canonical"), (3, "sigs"), (2, "permuted"), (2, "dups"), (3, "oddident"), (3, "oddhdr"), (2, "eofhdr"), (1, "trunc"), (1, "junk"),
+                  (3, "extras")]
 
 
 # ------------------------------------------------------------------ tags
@@ -284,7 +337,9 @@ def tag_body(rng, nsigblocks=None):
     return out
 
 
-def raw_tag(rng, bucket):
+def raw_tag(rng, bucket, hl=40):
+    if hl != 40:
+        return _with_hl(raw_tag, rng, bucket, hl)
     if bucket == "canonical":
         return assemble(tag_headers(rng), tag_body(rng))
     if bucket == "oddident":
